@@ -20,13 +20,8 @@ class C02(ProgProp):
     def fixed_cases(self, ctx):
         for c in super().fixed_cases(ctx):
             yield c
-        from vf.gen import asm as ga
-        # the same stream through the API object of an unlisted patch level of the version (3.10.17, 2.7.19 ...)
-        for v in self.versions:
-            pats = ga.jump_patterns(self.tables(ctx, v))
-            for patch in (17, 99):
-                if pats:
-                    yield {"k": "asm", "v": v, "items": pats[0], "patch": patch}
+        for c in self.patch_api_cases(ctx):
+            yield c
 
     def strata(self, ctx):
         from hypothesis import strategies as st
@@ -64,41 +59,7 @@ class C02(ProgProp):
             return self.judge_host(case, ctx)
         res = super().judge(case, ctx)
         if case.get("k") == "asm" and isinstance(case.get("patch"), int) and not res.reject and not res.failures:
-            from vf import refworker as rw
-            from vf import progdiff as pd
-            v = case["v"]
-            vt = pd.vt(v)
-            ref = self.reference(case, ctx)
-            x = rw.xd()
-            data = rw.unhx(ref["header"]) + rw.unhx(ref["payload"])
-            tup = rw.x_load_bytes(data)
-            co = tup[3]
-            base = [(i.offset, i.opname, i.arg) for i in x.bytecode.Bytecode(co, x.disasm.get_opcode(vt, False))]
-            vi = (vt[0], vt[1], case["patch"])
-            try:
-                api = x.std.make_std_api(vi, None)
-                got = [(i.offset, i.opname, i.arg) for i in api.get_instructions(co)]
-            except Exception as e:
-                res.fail("C02|patch-level-api|raised|%s" % type(e).__name__, "make_std_api(%r).get_instructions raised %s: %s" % (vi, type(e).__name__, e))
-                return res
-            if got != base:
-                k = next((j for j in range(min(len(got), len(base))) if got[j] != base[j]), min(len(got), len(base)))
-                res.fail("C02|patch-level-api|stream", "make_std_api(%r) decodes %s at row %d where the %s table gives %s" % (
-                    vi, got[k:k + 1], k, v, base[k:k + 1]))
-            res.classes.append("patch-level-api")
-            # API objects made for earlier cases (other versions) still decode their own code the same way
-            kept = ctx.cache.setdefault("kept_apis", [])
-            for (ovi, oapi, oco, obase) in kept[-6:]:
-                try:
-                    again = [(i.offset, i.opname, i.arg) for i in oapi.get_instructions(oco)]
-                except Exception as e:
-                    again = "raised %s" % type(e).__name__
-                if again != obase:
-                    res.fail("C02|kept-api|stream", "the API object made earlier for %r decodes its code differently now that make_std_api(%r) "
-                             "has been called: %s" % (ovi, vi, str(again)[:120]))
-                    break
-            if got == base:
-                kept.append((vi, api, co, base))
+            self.judge_patch_api(case, ctx, res)
         return res
 
     def classify(self, case, ref, x, c, res):
